@@ -600,7 +600,7 @@ end C17Ex
 
 /-! ## C. C07: what a successful `bindTypes` implies
 
-  `sampleName tt smp` is `reflect.Type.Name()` of a sample; `s.typeNames` the type names node
+  `e2eSampleName tt smp` is `reflect.Type.Name()` of a sample; `s.typeNames` the type names node
   `s` refers to (none for a bypass node; for a basic insert `(c, …) VALUES ($T.m, …)` the types
   of its values, for every other expression its `types`). -/
 
@@ -624,16 +624,16 @@ theorem bindTypes_ok_imp {C : Cls} {tt : TypeTable} {segs : List OSeg} {samples 
     (∀ smp ∈ samples, ∃ tid, smp = some tid ∧
       ((tt.get tid).kind = .struct ∨ (tt.get tid).kind = .map ∨ (tt.get tid).kind = .slice) ∧
       (tt.get tid).name.size ≠ 0) ∧
-    (samples.map (sampleName tt)).Nodup ∧
-    (∀ s ∈ segs, ∀ ty ∈ s.typeNames, ∃ smp ∈ samples, sampleName tt smp = ty) ∧
-    (∀ smp ∈ samples, ∃ s ∈ segs, sampleName tt smp ∈ s.typeNames) ∧
+    (samples.map (e2eSampleName tt)).Nodup ∧
+    (∀ s ∈ segs, ∀ ty ∈ s.typeNames, ∃ smp ∈ samples, e2eSampleName tt smp = ty) ∧
+    (∀ smp ∈ samples, ∃ s ∈ segs, e2eSampleName tt smp ∈ s.typeNames) ∧
     tes.length = segs.length := by
   have hlen := (bindTypes_exprs h).1
   obtain ⟨infos, st, hg, hs, hall, rfl⟩ := bindTypes_ok_unfold h
   obtain ⟨new, hnew, hc, hnd⟩ := generateArgInfo_spec _ _ _ hg
   simp only [List.nil_append] at hnew
   subst hnew
-  have hkeys : samples.map (sampleName tt) = infos.map (·.1) :=
+  have hkeys : samples.map (e2eSampleName tt) = infos.map (·.1) :=
     hc.map_eq (by rintro a b ⟨tid, rfl, _, _, _, hn⟩; exact hn.symm)
   have huses := bindSegs_uses _ _ _ hs
   refine ⟨?_, by rw [hkeys]; exact hnd (by simp), ?_, ?_, hlen⟩
@@ -643,12 +643,12 @@ theorem bindTypes_ok_imp {C : Cls} {tt : TypeTable} {segs : List OSeg} {samples 
     exact ⟨tid, htid, hk, hsz⟩
   · intro s hs' ty hty
     obtain ⟨p, hp, hpt⟩ := huses.known ty (List.mem_flatMap.2 ⟨s, hs', hty⟩)
-    have : ty ∈ samples.map (sampleName tt) := by
+    have : ty ∈ samples.map (e2eSampleName tt) := by
       rw [hkeys, ← hpt]; exact List.mem_map_of_mem hp
     obtain ⟨smp, hsmp, he⟩ := List.mem_map.1 this
     exact ⟨smp, hsmp, he⟩
   · intro smp hsmp
-    have : sampleName tt smp ∈ infos.map (·.1) := by rw [← hkeys]; exact List.mem_map_of_mem hsmp
+    have : e2eSampleName tt smp ∈ infos.map (·.1) := by rw [← hkeys]; exact List.mem_map_of_mem hsmp
     obtain ⟨p, hp, hpn⟩ := List.mem_map.1 this
     have hu : p.1 ∈ st.argUsed := by
       have := List.all_eq_true.1 hall p hp
@@ -660,7 +660,7 @@ theorem bindTypes_ok_imp {C : Cls} {tt : TypeTable} {segs : List OSeg} {samples 
 
 open PrepExample in
 /-- non-vacuity: the fixture of Props/Bind.lean prepares; its nodes refer to `T` and `U` -/
-example : (∀ s ∈ segs, ∀ ty ∈ s.typeNames, ∃ smp ∈ samples, sampleName tt smp = ty) ∧
+example : (∀ s ∈ segs, ∀ ty ∈ s.typeNames, ∃ smp ∈ samples, e2eSampleName tt smp = ty) ∧
     (segs.flatMap OSeg.typeNames) = [#[84], #[85], #[85], #[85]] :=
   ⟨(bindTypes_ok_imp bindTypes_example).2.2.1, by decide⟩
 
@@ -674,7 +674,7 @@ theorem bindTypes_ok_imp_literal_counterexample :
     let s : OSeg := { kind := .member, raw := #[], types := [{ ty := #[85], member := #[99] }],
                       vals := [.acc { ty := #[90], member := #[120] }] }
     (bindTypes PrepExample.C PrepExample.tt [s] [some 2]).isOk = true ∧ s.kind ≠ .bypass ∧
-      #[90] ∈ s.allTypeNames ∧ ∀ smp ∈ [some 2], sampleName PrepExample.tt smp ≠ #[90] := by
+      #[90] ∈ s.allTypeNames ∧ ∀ smp ∈ [some 2], e2eSampleName PrepExample.tt smp ≠ #[90] := by
   refine ⟨rfl, by decide, by decide, by decide⟩
 
 /-- C07 for parsed queries: for the nodes the parser produces, `typeNames` is *every* type
@@ -684,8 +684,8 @@ theorem bindTypes_ok_imp_literal_counterexample :
 theorem parse_bindTypes_ok_imp {E : Env} {C : Cls} {tt : TypeTable} {segs : List Seg}
     {samples : List (Option Nat)} {tes : List TExpr} (hp : parse E = .ok segs)
     (hb : bindTypes C tt (segs.map (Seg.toOSeg E.inp)) samples = .ok tes) :
-    (∀ s ∈ segs, ∀ ty ∈ (s.toOSeg E.inp).allTypeNames, ∃ smp ∈ samples, sampleName tt smp = ty) ∧
-    (∀ smp ∈ samples, ∃ s ∈ segs, s.kind ≠ .bypass ∧ sampleName tt smp ∈ (s.toOSeg E.inp).allTypeNames) := by
+    (∀ s ∈ segs, ∀ ty ∈ (s.toOSeg E.inp).allTypeNames, ∃ smp ∈ samples, e2eSampleName tt smp = ty) ∧
+    (∀ smp ∈ samples, ∃ s ∈ segs, s.kind ≠ .bypass ∧ e2eSampleName tt smp ∈ (s.toOSeg E.inp).allTypeNames) := by
   obtain ⟨_, _, h2, h3, _⟩ := bindTypes_ok_imp hb
   have hsh := parse_shape hp
   constructor
@@ -702,7 +702,7 @@ theorem parse_bindTypes_ok_imp {E : Env} {C : Cls} {tt : TypeTable} {segs : List
 
 /-- non-vacuity: the fixture of part A -/
 example : ∀ s ∈ E2EEx.segs, ∀ ty ∈ (s.toOSeg E2EEx.E.inp).allTypeNames,
-    ∃ smp ∈ [some 2], sampleName PrepExample.tt smp = ty := by
+    ∃ smp ∈ [some 2], e2eSampleName PrepExample.tt smp = ty := by
   obtain ⟨segs', tes, hp', hb, _⟩ := prepareAndBind_some E2EEx.prepare_E
   rw [E2EEx.parse_E] at hp'; cases hp'
   exact (parse_bindTypes_ok_imp E2EEx.parse_E hb).1
@@ -711,7 +711,7 @@ example : ∀ s ∈ E2EEx.segs, ∀ ty ∈ (s.toOSeg E2EEx.E.inp).allTypeNames,
     `bindTypes` fail -/
 theorem bindTypes_missing_type {C : Cls} {tt : TypeTable} {segs : List OSeg} {samples : List (Option Nat)}
     {s : OSeg} {ty : Bytes} (hs : s ∈ segs) (hty : ty ∈ s.typeNames)
-    (hno : ∀ smp ∈ samples, sampleName tt smp ≠ ty) : ∃ e, bindTypes C tt segs samples = .error e := by
+    (hno : ∀ smp ∈ samples, e2eSampleName tt smp ≠ ty) : ∃ e, bindTypes C tt segs samples = .error e := by
   cases h : bindTypes C tt segs samples with
   | error e => exact ⟨e, rfl⟩
   | ok tes =>
@@ -720,7 +720,7 @@ theorem bindTypes_missing_type {C : Cls} {tt : TypeTable} {segs : List OSeg} {sa
 
 /-- C07, converse (b): a sample that no node refers to makes `bindTypes` fail -/
 theorem bindTypes_unused_sample {C : Cls} {tt : TypeTable} {segs : List OSeg} {samples : List (Option Nat)}
-    {smp : Option Nat} (hsmp : smp ∈ samples) (hno : ∀ s ∈ segs, sampleName tt smp ∉ s.typeNames) :
+    {smp : Option Nat} (hsmp : smp ∈ samples) (hno : ∀ s ∈ segs, e2eSampleName tt smp ∉ s.typeNames) :
     ∃ e, bindTypes C tt segs samples = .error e := by
   cases h : bindTypes C tt segs samples with
   | error e => exact ⟨e, rfl⟩
@@ -734,7 +734,7 @@ theorem bindTypes_bad_sample {C : Cls} {tt : TypeTable} {segs : List OSeg} {samp
     (hbad : (∃ smp ∈ samples, ∀ tid, smp = some tid →
         ¬ (((tt.get tid).kind = .struct ∨ (tt.get tid).kind = .map ∨ (tt.get tid).kind = .slice) ∧
           (tt.get tid).name.size ≠ 0)) ∨
-      ¬ (samples.map (sampleName tt)).Nodup) : ∃ e, bindTypes C tt segs samples = .error e := by
+      ¬ (samples.map (e2eSampleName tt)).Nodup) : ∃ e, bindTypes C tt segs samples = .error e := by
   cases h : bindTypes C tt segs samples with
   | error e => exact ⟨e, rfl⟩
   | ok tes =>
